@@ -1,10 +1,12 @@
 #!/bin/bash
 # usage: try-controls.sh <tier> <logfile> <patch>...
 # Negative controls: behaviour-preserving changes. Every check must stay silent on each of them.
+# PROPS="C11 C12" restricts the run to some checks (default: all twenty).
 TIER=$1; LOG=$2; shift 2
+PROPS=${PROPS:-C01 C02 C03 C04 C05 C06 C07 C08 C09 C10 C11 C12 C13 C14 C15 C16 C17 C18 C19 C20}
 : > "$LOG"
 for p in "$@"; do
   echo "== $p" >> "$LOG"
-  /verif/bin/try-patch.sh "$p" "$TIER" C01 C02 C03 C04 C05 C06 C07 C08 C09 C10 C11 C12 C13 C14 C15 C16 C17 C18 C19 C20 2>&1 | grep -E "^DETECTED|detail|rc=2|does not apply" | cut -c1-700 >> "$LOG"
+  /verif/bin/try-patch.sh "$p" "$TIER" $PROPS 2>&1 | grep -E "^DETECTED|detail|rc=2|does not apply" | cut -c1-700 >> "$LOG"
 done
 echo ALLDONE >> "$LOG"
